@@ -267,3 +267,321 @@ Proof. repeat split; vm_compute; discriminate. Qed.
 Example c16_max_rounds_depends_on_each :
   derive_max_rounds MTui 10 <> derive_max_rounds MJson 10 /\ derive_max_rounds MJson 10 <> derive_max_rounds MJson 5.
 Proof. split; vm_compute; discriminate. Qed.
+
+(* ====================================================================================================
+   Second part.  Precedence over the COMPLETE inventory of layered settings, the verdict of build_config as the first
+   documented rule that fires on the effective values (Proofs/ConfigRules.v), and the chain
+   build_config -> start_tracer -> Builder::build -> strategy loop / Channel::connect (Proofs/AcceptedRuns.v).
+   Vocabulary (all of it specification, defined without reference to how build_config is written):
+   [eff o a f] the effective value of plain option o; [xopt] a layered setting (plain option, protocol / address family
+   with their shortcut flags, theme item, key binding) with [x_cli], [x_file], [x_default], [x_read]; [view_of a f] the
+   effective values a verdict may depend on; [rules tz p V] the documented rejection conditions in code order;
+   [first_rule rs e]: e is the error of the first rule of rs whose condition holds; [none_fires rs];
+   [idle_cfg c]: a configuration that can never send (max_ttl < first_ttl or max_inflight = 0); [empty_round r];
+   [runs_well sc mr]: for every start time and environment the run of sc does not fault, publishes at most mr rounds,
+   exactly mr when it returns success, and does return success after exactly mr rounds when the environment injects
+   nothing fatal and lets mr rounds expire (TCP: or ends with the capacity error); without a limit it never returns
+   success by itself.
+   ==================================================================================================== *)
+From TV Require Import Proofs.StrategyProps Proofs.RunSemantics Proofs.ConfigRules Proofs.AcceptedRuns.
+From TV Require Net.Sock Net.ChannelSend Net.Dispatch4 Net.Dispatch6.
+
+(* ------------------------------------------------------------------ precedence, every layered setting *)
+(* ONE statement for every setting an accepted TrippyConfig stores - the 40 plain options stored in a field of their
+   own, protocol with --udp/--tcp/--icmp, address family with -4/-6, each of the 34 theme colours, each of the 38 key
+   bindings: the stored value is the command-line value if given, else the file value if given, else the documented
+   default (x_norm only identifies tui-max-addrs 0 with "auto"). *)
+Theorem c16_precedence_all : forall x tz a f p pid c d v, build_config tz a f p pid = COk c ->
+  x_default x = Some d -> x_read x c = Some v ->
+  v = x_norm x (first_of (x_cli x a) (x_file x f) d).
+Proof. exact x_precedence. Qed.
+
+(* the inventory: 114 settings, each with a documented default and readable from every accepted configuration (so the
+   statement above says something for each of them); the two options missing from it, source-port and target-port, are
+   stored through port_direction only (c16_derived_port_direction, c16_derived_effective) *)
+Theorem c16_inventory_complete : forall tz a f p pid c, build_config tz a f p pid = COk c ->
+  length all_xopts = 114%nat /\
+  Forall (fun x => (exists d, x_default x = Some d) /\ (exists v, x_read x c = Some v)) all_xopts.
+Proof. exact x_inventory. Qed.
+
+(* the five shortcut flags: a flag that is given decides the field whatever --protocol / --addr-family and the file
+   say (in the order udp, tcp, icmp and 4, 6 of the code's match); without flags the field is the plain option *)
+Theorem c16_shortcut_flags : forall tz a f p pid c, build_config tz a f p pid = COk c ->
+  (a_udp a = true -> tc_protocol c = Udp) /\
+  (a_udp a = false -> a_tcp a = true -> tc_protocol c = Tcp) /\
+  (a_udp a = false -> a_tcp a = false -> a_icmp a = true -> tc_protocol c = Icmp) /\
+  (a_udp a = false -> a_tcp a = false -> a_icmp a = false -> tc_protocol c = vprotocol (eff OProtocol a f)) /\
+  (a_ipv4 a = true -> tc_addr_family c = Ipv4Only) /\
+  (a_ipv4 a = false -> a_ipv6 a = true -> tc_addr_family c = Ipv6Only) /\
+  (a_ipv4 a = false -> a_ipv6 a = false -> tc_addr_family c = vfamily (eff OAddrFamily a f)).
+Proof. exact shortcut_flags. Qed.
+
+(* on a command line clap lets through (conflicts_with) the flags and the plain option exclude one another, so the
+   order of the match arms is never observable *)
+Theorem c16_flags_exclusive : forall a, args_conflict a = false ->
+  (a_udp a = true -> a_tcp a = false /\ a_icmp a = false /\ a_protocol a = None) /\
+  (a_tcp a = true -> a_udp a = false /\ a_icmp a = false /\ a_protocol a = None) /\
+  (a_icmp a = true -> a_udp a = false /\ a_tcp a = false /\ a_protocol a = None) /\
+  (a_ipv4 a = true -> a_ipv6 a = false /\ a_addr_family a = None) /\
+  (a_ipv6 a = true -> a_ipv4 a = false /\ a_addr_family a = None).
+Proof. exact no_conflict_exclusive. Qed.
+
+(* every derived field of an accepted configuration as a function of the effective values: protocol, address family,
+   port direction (the documented port rule on the effective protocol / ports / strategy and the pid), max_rounds (mode
+   and report-cycles), tui_max_addrs (0 => none), the effective max_flows (1 for classic), the key bindings *)
+Theorem c16_derived_effective : forall tz a f p pid c, build_config tz a f p pid = COk c ->
+  tc_protocol c = v_protocol (view_of a f) /\
+  tc_addr_family c = v_family (view_of a f) /\
+  port_rule pid (v_protocol (view_of a f)) (voint (eff OSourcePort a f)) (voint (eff OTargetPort a f))
+            (derive_multipath_strategy (vstrategy (eff OMultipathStrategy a f))) (tc_port_direction c) /\
+  tc_max_rounds c = match vmode (eff OMode a f) with MTui | MStream => None | _ => Some (vint (eff OReportCycles a f)) end /\
+  tc_tui_max_addrs c = match voint (eff OTuiMaxAddrs a f) with Some n => if 0 <? n then Some n else None | None => None end /\
+  TrippyConfig_max_flows c = match vstrategy (eff OMultipathStrategy a f) with MsClassic => 1 | _ => vint (eff OMaxFlows a f) end /\
+  tc_tui_bindings c = v_bindings (view_of a f).
+Proof. exact derived_effective. Qed.
+
+(* ------------------------------------------------------------------ the verdict of build_config *)
+(* build_config answers with error e exactly when e is the error of the FIRST documented rule, in the order of the
+   code, whose condition holds - and every condition is one on the effective values (view_of a f), the timezone table
+   and the privileges of the platform: each validator fires iff its documented condition holds there, and when several
+   hold the earliest in the list wins *)
+Theorem c16_first_error : forall tz a f p pid e,
+  build_config tz a f p pid = CErr e <-> first_rule (rules tz p (view_of a f)) e.
+Proof. exact build_config_error_iff. Qed.
+
+(* ... and it accepts exactly when no rule fires *)
+Theorem c16_accepts_iff_no_rule : forall tz a f p pid,
+  (exists c, build_config tz a f p pid = COk c) <-> none_fires (rules tz p (view_of a f)).
+Proof. exact build_config_accepts_iff. Qed.
+
+(* deprecated keys ([tui] tui-max-samples, [tui] tui-max-flows, [bindings] toggle-privacy): refused whatever else is
+   said, and before every other complaint *)
+Theorem c16_deprecated_rejected : forall tz a f p pid, deprecated_present f = true ->
+  build_config tz a f p pid = CErr EDeprecated.
+Proof. exact deprecated_rejected. Qed.
+
+(* the verdict does not depend on the layer a value comes from: two command-line / file pairs with the same effective
+   values are both accepted or both refused with the same error (also under different pids) *)
+Theorem c16_verdict_effective_only : forall tz p a f pid a' f' pid', same_view (view_of a f) (view_of a' f') ->
+  (forall e, build_config tz a f p pid = CErr e <-> build_config tz a' f' p pid' = CErr e) /\
+  ((exists c, build_config tz a f p pid = COk c) <-> (exists c, build_config tz a' f' p pid' = COk c)).
+Proof. exact verdict_same_view. Qed.
+
+(* ------------------------------------------------------------------ the builder seen from the command line *)
+(* exactly which configurations accepted by the command-line layer the builder refuses (with Error::BadConfig, before
+   tracing starts): an initial sequence above 64511, or sequence 0 with udp / paris towards an IPv6 target *)
+Theorem c16_builder_refuses_iff : forall tz a f p pid c tgt tid, build_config tz a f p pid = COk c ->
+  (builder_accepts (start_tracer_cfg c tgt tid) = false <->
+   64511 < tc_initial_sequence c \/
+   (tc_protocol c = Udp /\ tc_multipath_strategy c = Paris /\ is_v6 tgt = true /\ tc_initial_sequence c = 0)).
+Proof. exact cli_builder_refuses_iff. Qed.
+
+(* a configuration accepted by the command-line layer can always send: it is never one of the degenerate
+   configurations the builder accepts from library users *)
+Theorem c16_cli_never_degenerate : forall tz a f p pid c tgt tid,
+  build_config tz a f p pid = COk c -> args_in_range a -> file_in_range f -> u16 pid -> u16 tid ->
+  1 <= tc_first_ttl c <= tc_max_ttl c /\ tc_max_ttl c <= 254 /\ 1 <= tc_max_inflight c <= 255 /\
+  ~ idle_cfg (start_tracer_cfg c tgt tid).
+Proof. exact cli_not_idle. Qed.
+
+(* ------------------------------------------------------------------ every builder-accepted configuration runs *)
+(* `Accept`, the hypothesis of the strategy theorems (C03..C09), is builder acceptance plus the ranges of the Rust types
+   and nothing else: in particular it does not ask for first_ttl <= max_ttl, max_ttl >= 1 or max_inflight >= 1 *)
+Theorem c16_accept_is_builder_and_ranges : forall c, Accept c <-> builder_accepts c = true /\ cfg_wf c.
+Proof. intros c. unfold Accept. tauto. Qed.
+
+(* library users: whatever the builder accepts runs well, for every environment *)
+Theorem c16_builder_runs_well : forall c, builder_accepts c = true -> cfg_wf c -> runs_well c (max_rounds c).
+Proof. exact builder_runs_well. Qed.
+
+(* ... including the configurations that can never send a probe (max_ttl < first_ttl, so also max_ttl = 0; max_inflight
+   = 0): no fault, no probe is ever handed to the network, every published round is empty and closed by the timing
+   policy, the run ends with an error only if the environment injects a fatal receive error, and with a round limit n and
+   a clock that lets n rounds expire it publishes exactly n rounds and returns success *)
+Theorem c16_idle_runs : forall c t0 is, Accept c -> idle_cfg c ->
+  let '(ev, o, sf) := run c t0 is in
+  ev_probes ev = [] /\ Forall empty_round (pubs ev) /\ (forall x, o <> Faulted x) /\
+  (forall e, o = Failed_with e -> exists i, In i is /\ i_recv i = FatalR e) /\
+  (forall n, max_rounds c = Some n -> Forall (fun i => forall e, i_recv i <> FatalR e) is ->
+     n <= Z.of_nat (count_expired c t0 is) -> o = Finished /\ Z.of_nat (length (pubs ev)) = n).
+Proof. exact idle_runs. Qed.
+
+(* ------------------------------------------------------------------ the composed statement *)
+(* command line / file --build_config--> TrippyConfig --start_tracer--> Builder::build --> strategy loop.
+   Either the builder refuses (configuration error before tracing starts, exactly in the two cases above), or the
+   strategy configuration can send and runs well for every start time and every environment. *)
+Theorem c16_accepted_runs : forall tz a f p pid c tgt tid,
+  build_config tz a f p pid = COk c -> args_in_range a -> file_in_range f -> u16 pid -> u16 tid ->
+  (builder_accepts (start_tracer_cfg c tgt tid) = false /\
+   (64511 < tc_initial_sequence c \/
+    (tc_protocol c = Udp /\ tc_multipath_strategy c = Paris /\ is_v6 tgt = true /\ tc_initial_sequence c = 0))) \/
+  (builder_accepts (start_tracer_cfg c tgt tid) = true /\ ~ idle_cfg (start_tracer_cfg c tgt tid) /\
+   runs_well (start_tracer_cfg c tgt tid) (tc_max_rounds c)).
+Proof. exact accepted_runs. Qed.
+
+(* the same, read forwards: accepted by build_config, sequence within the builder's bound -> accepted by the builder,
+   and for every environment the run does not fault and, with a round limit, publishes exactly n rounds *)
+Theorem c16_accepted_runs_builder : forall tz a f p pid c tgt tid,
+  build_config tz a f p pid = COk c -> args_in_range a -> file_in_range f -> u16 pid -> u16 tid ->
+  tc_initial_sequence c <= 64511 ->
+  ~ (tc_protocol c = Udp /\ tc_multipath_strategy c = Paris /\ is_v6 tgt = true /\ tc_initial_sequence c = 0) ->
+  builder_accepts (start_tracer_cfg c tgt tid) = true /\ runs_well (start_tracer_cfg c tgt tid) (tc_max_rounds c).
+Proof. exact accepted_runs_builder. Qed.
+
+(* ------------------------------------------------------------------ the channel configuration *)
+(* the packet size of an accepted configuration passes the guard of Channel::connect and the minimum sizes of the IPv4
+   dispatchers, and those of the IPv6 dispatchers unless the address family is ipv4-only *)
+Theorem c16_channel_sizes : forall tz a f p pid c src tgt, build_config tz a f p pid = COk c ->
+  (ChannelSend.cc_packet_size (start_tracer_chan c src tgt) >? Sock.MAX_PACKET_SIZE) = false /\
+  Dispatch4.MIN_PACKET_SIZE_ICMP4 <= ChannelSend.cc_packet_size (start_tracer_chan c src tgt) /\
+  Dispatch4.MIN_PACKET_SIZE_UDP4 <= ChannelSend.cc_packet_size (start_tracer_chan c src tgt) /\
+  (tc_addr_family c <> Ipv4Only ->
+   Dispatch6.MIN_PACKET_SIZE_ICMP6 <= ChannelSend.cc_packet_size (start_tracer_chan c src tgt) /\
+   Dispatch6.MIN_PACKET_SIZE_UDP6 <= ChannelSend.cc_packet_size (start_tracer_chan c src tgt)).
+Proof. exact cli_channel_sizes. Qed.
+
+(* Channel::connect for an accepted configuration (no socket call failing): with a source address of the family of the
+   target it returns the channel - never "invalid packet size"; with a source address of the other family it reaches
+   unreachable!() *)
+Theorem c16_channel_connect : forall tz a f p pid c src tgt bo ops, build_config tz a f p pid = COk c ->
+  let cfg := start_tracer_chan c src tgt in
+  (is_v6 (ChannelSend.cc_source cfg) = is_v6 tgt ->
+     exists ch, snd (ChannelSend.connect bo cfg {| Sock.w_ops := ops; Sock.w_inject := [] |}) = Ok ch /\
+                ChannelSend.ch_protocol ch = tc_protocol c) /\
+  (is_v6 (ChannelSend.cc_source cfg) <> is_v6 tgt ->
+     snd (ChannelSend.connect bo cfg {| Sock.w_ops := ops; Sock.w_inject := [] |}) = Fault Unreachable).
+Proof. exact cli_channel_connect. Qed.
+
+(* ------------------------------------------------------------------ non-vacuity of the second part *)
+(* a command line `trip <target> ...` with the listed arguments and nothing else *)
+Definition args_ex (targets : list str) (udp tcp : bool) (src_addr : option addr) (ms : option MultipathStrategyConfig)
+    (seq ft mt ps : option Z) (mode : option Mode) (theme keys : list (Z * Z)) : Args := {|
+  a_targets := targets; a_mode := mode; a_unprivileged := false; a_protocol := None; a_udp := udp; a_tcp := tcp;
+  a_icmp := false; a_addr_family := None; a_ipv4 := false; a_ipv6 := false; a_target_port := None; a_source_port := None;
+  a_source_address := src_addr; a_interface := None; a_min_round_duration := None; a_max_round_duration := None;
+  a_grace_duration := None; a_initial_sequence := seq; a_multipath_strategy := ms; a_max_inflight := None;
+  a_first_ttl := ft; a_max_ttl := mt; a_packet_size := ps; a_payload_pattern := None; a_tos := None;
+  a_icmp_extensions := false; a_read_timeout := None; a_dns_resolve_method := None; a_dns_resolve_all := false;
+  a_dns_timeout := None; a_dns_ttl := None; a_dns_lookup_as_info := false; a_max_samples := None; a_max_flows := None;
+  a_tui_address_mode := None; a_tui_as_mode := None; a_tui_custom_columns := None; a_tui_icmp_extension_mode := None;
+  a_tui_geoip_mode := None; a_tui_max_addrs := None; a_tui_preserve_screen := false; a_tui_refresh_rate := None;
+  a_tui_privacy_max_ttl := None; a_tui_locale := None; a_tui_timezone := None; a_tui_theme_colors := theme;
+  a_tui_key_bindings := keys; a_report_cycles := None; a_geoip_mmdb_file := None; a_log_format := None; a_log_filter := None;
+  a_log_span_events := None; a_verbose := false |}.
+(* a file with a [strategy] section holding the listed keys only *)
+Definition file_ex (proto : option ProtocolConfig) (ft mt ps : option Z) : ConfigFile := {|
+  cf_trippy := None;
+  cf_strategy := Some {|
+    cs_protocol := proto; cs_addr_family := None; cs_target_port := None; cs_source_port := None;
+    cs_source_address := None; cs_interface := None; cs_min_round_duration := None; cs_max_round_duration := None;
+    cs_initial_sequence := None; cs_multipath_strategy := None; cs_grace_duration := None; cs_max_inflight := None;
+    cs_first_ttl := ft; cs_max_ttl := mt; cs_packet_size := ps; cs_payload_pattern := None; cs_tos := None;
+    cs_icmp_extensions := None; cs_read_timeout := None; cs_max_samples := None; cs_max_flows := None |};
+  cf_theme_colors := None; cf_bindings := None; cf_tui := None; cf_dns := None; cf_report := None |}.
+Definition t101 : list str := [[101]].
+
+(* c16_precedence_all at three settings of different kinds: `--tcp` over `protocol = "udp"` in the file; theme item 3
+   (tab_text, default green = 2) set to 9 on the command line; command 36 (quit, default 'q') left alone *)
+Example c16_precedence_all_instances :
+  exists c, build_config no_tz (args_ex t101 false true None None None None None None None [(3, 9)] []) (file_ex (Some PcUdp) None None None) root 4242 = COk c /\
+    x_read XProtocol c = Some (VProtocol PcTcp) /\
+    x_cli XProtocol (args_ex t101 false true None None None None None None None [(3, 9)] []) = Some (VProtocol PcTcp) /\
+    x_file XProtocol (file_ex (Some PcUdp) None None None) = Some (VProtocol PcUdp) /\
+    x_read (XTheme 3) c = Some (VInt 9) /\ x_default (XTheme 3) = Some (VInt 2) /\
+    x_read (XBinding 36) c = x_default (XBinding 36).
+Proof. eexists; repeat split; vm_compute; reflexivity. Qed.
+
+(* validation order and "effective values, not layers":
+   - `--first-ttl 0 --packet-size 5000` breaks two rules; the ttl rule comes first in the code;
+   - the same two values written in the file give the same answer;
+   - `first-ttl = 10` in the file with `--max-ttl 5` on the command line: each layer alone is fine (with the defaults
+     1 and 64), the effective pair is not;
+   - a deprecated key wins over everything *)
+Example c16_rule_order_instances :
+  build_config no_tz (args_ex t101 false false None None None (Some 0) None (Some 5000) None [] []) no_file root 4242 = CErr ETtl /\
+  build_config no_tz no_args (file_ex None (Some 0) None (Some 5000)) root 4242 = CErr ETtl /\
+  build_config no_tz (args_ex t101 false false None None None None (Some 5) None None [] []) (file_ex None (Some 10) None None) root 4242 = CErr ETtl /\
+  (exists c, build_config no_tz (args_ex t101 false false None None None None (Some 5) None None [] []) no_file root 4242 = COk c) /\
+  (exists c, build_config no_tz no_args (file_ex None (Some 10) None None) root 4242 = COk c) /\
+  build_config no_tz (args_ex t101 false false None None None None None (Some 5000) None [] []) no_file root 4242 = CErr EPacketSize.
+Proof. repeat split; try (eexists; vm_compute; reflexivity); vm_compute; reflexivity. Qed.
+
+(* same_view is satisfiable by genuinely different inputs: `--first-ttl 3` on the command line against `first-ttl = 3`
+   in the file *)
+Example c16_same_view_instance :
+  same_view (view_of (args_ex t101 false false None None None (Some 3) None None None [] []) no_file)
+            (view_of no_args (file_ex None (Some 3) None None)).
+Proof. constructor; try reflexivity. intros o; destruct o; reflexivity. Qed.
+
+(* the builder's second refusal is real too: `--udp -R paris --initial-sequence 0` towards an IPv6 target *)
+Definition v6_target : addr := [32; 1; 13; 184; 0; 0; 0; 0; 0; 0; 0; 0; 0; 0; 0; 1].
+Example c16_cli_accepts_builder_rejects_paris6_zero :
+  exists c, build_config no_tz (args_ex t101 true false None (Some MsParis) (Some 0) None None None None [] []) no_file root 4242 = COk c /\
+    builder_accepts (start_tracer_cfg c v6_target 4242) = false /\
+    builder_accepts (start_tracer_cfg c [10; 0; 0; 1] 4242) = true.
+Proof. eexists; repeat split; vm_compute; reflexivity. Qed.
+
+(* a builder-accepted configuration that can never send: first_ttl 5 > max_ttl 3 and max_inflight 0.  The run below
+   (three rounds expire) publishes three empty rounds and returns success. *)
+Definition idle_example : scfg := {|
+  target_addr := [10; 0; 0; 1]; proto := Icmp; trace_identifier := 7; max_rounds := Some 3; first_ttl := 5; max_ttl := 3;
+  grace_duration := 100; max_inflight := 0; initial_sequence := 33434; multipath := Classic; port_direction := PdNone;
+  min_round_duration := 1000; max_round_duration := 1000 |}.
+Definition idle_env : list iter_in :=
+  map (fun t => {| i_clock := [t]; i_sends := [FatalS (EIo 9)]; i_recv := Timeout; i_update := t; i_advance := t |})
+      [10; 1500; 1600; 2700; 4000; 9000].
+Example c16_idle_instance :
+  Accept idle_example /\ idle_cfg idle_example /\ ~ (first_ttl idle_example <= max_ttl idle_example) /\
+  Forall (fun i => forall e, i_recv i <> FatalR e) idle_env /\ 3 <= Z.of_nat (count_expired idle_example 0 idle_env) /\
+  let '(ev, o, sf) := run idle_example 0 idle_env in
+  o = Finished /\ map rr_probes (pubs ev) = [[]; []; []] /\ ev_probes ev = [].
+Proof.
+  split; [split; [reflexivity|unfold cfg_wf, u8, u16; cbn; lia]|].
+  split; [left; cbn; lia|]. split; [cbn; lia|].
+  split; [repeat constructor; intros e; discriminate|].
+  split; [vm_compute; discriminate|]. vm_compute. repeat split; reflexivity.
+Qed.
+
+(* the hypotheses of c16_accepted_runs / c16_accepted_runs_builder are satisfiable: `--udp -R paris -S 5000 -P 33000` with
+   `first-ttl = 3` in the file (TUI mode: no round limit), and `--mode json` (round limit = the default report-cycles);
+   the builder accepts both *)
+Example c16_accepted_runs_instance :
+  exists c, build_config no_tz udp_paris_args ttl3_file root 4242 = COk c /\
+    args_in_range udp_paris_args /\ file_in_range ttl3_file /\ u16 4242 /\
+    builder_accepts (start_tracer_cfg c [10; 0; 0; 1] 4242) = true /\ tc_max_rounds c = None /\
+  exists c', build_config no_tz (args_ex t101 false false None None None None None None (Some MJson) [] []) no_file root 4242 = COk c' /\
+    tc_max_rounds c' = Some 10 /\ builder_accepts (start_tracer_cfg c' [10; 0; 0; 1] 4242) = true.
+Proof.
+  eexists. split; [vm_compute; reflexivity|].
+  split; [constructor; cbn; unfold u16, u8, nonneg; try exact I; lia|].
+  split; [split; [constructor; cbn; unfold u16, u8, nonneg; try exact I; lia|exact I]|].
+  split; [unfold u16; lia|]. split; [vm_compute; reflexivity|]. split; [vm_compute; reflexivity|].
+  eexists. repeat split; vm_compute; reflexivity.
+Qed.
+
+(* ------------------------------------------------------------------ a configuration that is accepted and cannot run *)
+(* F22 (repaired in /repo): `trip ::1 --source-address 127.0.0.1` (any IPv6 target with an IPv4 source address, or the
+   reverse) was accepted by build_config AND by Builder::build; SourceAddr::validate only checks that the address can be
+   bound, and Channel::connect then matched (source, target) on (V4, V4) | (V6, V6) and reached unreachable!() - a panic in
+   the tracer thread once tracing had started.  Builder::build now refuses a source address of the other family
+   (builder_accepts_src): the former witness is refused with a configuration error ... *)
+Definition v6_loopback : addr := [0; 0; 0; 0; 0; 0; 0; 0; 0; 0; 0; 0; 0; 0; 0; 1].
+Theorem c16_family_mismatch_refused :
+  exists a f c, args_conflict a = false /\ build_config no_tz a f root 4242 = COk c /\
+    builder_accepts (start_tracer_cfg c v6_loopback 4242) = true /\
+    tc_source_addr c = Some [127; 0; 0; 1] /\
+    builder_accepts_src (start_tracer_cfg c v6_loopback 4242) (tc_source_addr c) = false.
+Proof.
+  exists (args_ex [[58; 58; 49]] false false (Some [127; 0; 0; 1]) None None None None None None [] []), no_file.
+  eexists. split; [reflexivity|]. split; [vm_compute; reflexivity|]. split; [vm_compute; reflexivity|].
+  split; [reflexivity|]. vm_compute. reflexivity.
+Qed.
+
+(* ... and whatever the builder accepts with a source address has the family of the target, which is the hypothesis under
+   which c16_channel_connect shows that Channel::connect returns the channel *)
+Theorem c16_source_family : forall c tgt tid s,
+  builder_accepts_src (start_tracer_cfg c tgt tid) (Some s) = true -> Types.is_v6 s = Types.is_v6 tgt.
+Proof.
+  intros c tgt tid s H. unfold builder_accepts_src in H. apply andb_prop in H. destruct H as [_ H].
+  unfold source_family_ok in H. cbn [start_tracer_cfg target_addr] in H. apply Bool.eqb_prop in H. exact H.
+Qed.
